@@ -1,14 +1,14 @@
-"""C11 — decoded-source-symbol callback contract (Reed-Solomon codecs; LDPC not reached)."""
-from checks import c10
+"""C11 — decoded-source-symbol callback contract (Reed-Solomon: API-layer contracts; LDPC-Staircase: BOUNDED session contract)."""
+from checks import c10, lbc
 
 INFO = dict(c10.INFO)
 INFO["explanation"] = ("callback clauses of the Reed-Solomon API-layer contracts (callback.*): invoked exactly once per decoded source symbol with "
                        "(length, esi < k), never for a received one, result stored in the returned buffer or in a library allocation when it returns "
                        "NULL, and that buffer is what of_get_source_symbols_tab reports; callback modelled as a function that returns NULL or a fresh "
                        "buffer nondeterministically per ESI")
-INFO["assumptions"] = ["LDPC-Staircase IT/ML callback paths are NOT decided (DESIGN.md section 6)",
+INFO["assumptions"] = ["LDPC-Staircase IT/ML callback paths: BOUNDED session contract on small codes, callback returning a fresh buffer / NULL / alternating, with and without the repair callback",
                        "of_rs_decode / of_rs_2m_decode contract as in C10"]
 
 
 def jobs(tier, seed):
-    return c10.api_jobs(tier, fns=(1, 3, 4), group_prefix="rs_callback")
+    return c10.api_jobs(tier, fns=(1, 3, 4), group_prefix="rs_callback") + lbc.cb_jobs(tier, seed, prop="C11")
